@@ -24,3 +24,4 @@ func verifItoa(n int) string
 func verifGlobalsUnchanged() bool
 func verifHasPrefix(s, prefix string) bool
 func verifCutErrors(on bool)
+func verifDecodeRune(s string, real bool) (rune, int)
